@@ -345,7 +345,7 @@ theorem lookupHosts_sound {look : Str → Option (Route × Target)} {skip : Targ
       by_cases hs' : skip tg' = true
       · simp [hs'] at hres
         rcases ih hres with h' | ⟨h1, h2⟩
-        · right; cases h'; exact ⟨List.mem_cons_self .., hx⟩
+        · cases h'
         · exact Or.inr ⟨List.mem_cons_of_mem _ h1, h2⟩
       · simp [hs'] at hres
         obtain ⟨rfl, rfl, rfl⟩ := hres
